@@ -190,4 +190,27 @@ func regress(c *hc.Ctx) {
 		}
 		return ""
 	})
+	// 43a429d: Translate and Scale transformed the receiver in place (and Grid accumulated the offsets of
+	// its shared cell)
+	run("impure:Translate-receiver", "Rectangle(1,1).Translate(1,2)", func() string {
+		p, back := tailCopy(canvas.Rectangle(1, 1))
+		snap := cloneF(back)
+		q := p.Translate(1, 2)
+		if !sameData(snap, back) {
+			return "receiver is now " + p.String()
+		}
+		return want(q, "M1 2L2 2L2 3L1 3z")
+	})
+	run("impure:Scale-receiver", "Rectangle(1,1).Scale(2,3)", func() string {
+		p, back := tailCopy(canvas.Rectangle(1, 1))
+		snap := cloneF(back)
+		q := p.Scale(2, 3)
+		if !sameData(snap, back) {
+			return "receiver is now " + p.String()
+		}
+		return want(q, "M0 0L2 0L2 3L0 3z")
+	})
+	run("shape:Grid-cell-position", "Grid(10,10,2,2,1)", func() string {
+		return want(canvas.Grid(10, 10, 2, 2, 1), "M0 0L10 0L10 10L0 10zM1 1L1 4.5L4.5 4.5L4.5 1zM5.5 1L5.5 4.5L9 4.5L9 1zM1 5.5L1 9L4.5 9L4.5 5.5zM5.5 5.5L5.5 9L9 9L9 5.5z")
+	})
 }
